@@ -41,7 +41,7 @@ func genC14(maxClients int, long bool) func(t *rapid.T) C14Batch {
 		n := rapid.IntRange(4, maxClients).Draw(t, "nclients")
 		for i := 0; i < n; i++ {
 			b.Clients = append(b.Clients, C14Client{
-				Script: rapid.SampledFrom([]string{"plain", "plain", "dns-single", "dns-single", "dns-multi", "mixed", "dns-then-plain", "plain-reply53", "recreate"}).Draw(t, "script"),
+				Script: rapid.SampledFrom([]string{"plain", "plain", "dns-single", "dns-single", "dns-multi", "mixed", "dns-then-plain", "plain-reply53", "recreate", "unsendable"}).Draw(t, "script"),
 				Sends:  rapid.IntRange(1, 4).Draw(t, "sends"), GapMs: rapid.SampledFrom([]int{0, 10, 60, 120}).Draw(t, "gap"), Delay: rapid.SampledFrom([]int{0, 0, 30}).Draw(t, "delay")})
 		}
 		return b
@@ -303,6 +303,18 @@ func c14Client(e *c14Env, b C14Batch, i int, spec C14Client, tgtMux, dnsMux *tag
 			if r2 := assocOf(); r2 == r || r2.Removed() > 0 {
 				return kit.Violation("nat:no-new-association", "client %d: a datagram after expiry did not create a new association", i)
 			}
+		}
+	case "unsendable":
+		// The first datagram authenticates and is allowed, but the outbound send fails (port 0): the association
+		// exists and must still be reclaimed after the timeout although the client stays idle.
+		t0 := time.Now()
+		e.send(cl, &net.UDPAddr{IP: net.IPv4(127, 0, 0, 1), Port: 0}, tag("unsendable", 0), seed)
+		var r *kit.RecUDPAssoc
+		if !kit.WaitFor(2*time.Second, func() bool { r = assocOf(); return r != nil }) {
+			return nil // no association was created for an unsendable first datagram: nothing to reclaim
+		}
+		if !kit.WaitFor(time.Until(t0.Add(e.tau))+2*time.Second, func() bool { return r.Removed() > 0 }) {
+			return kit.Violation("nat:not-expired", "client %d (unsendable): the association created by a datagram whose outbound send failed is still not removed %v later (timeout %v): idle clients accumulate", i, time.Since(t0), e.tau)
 		}
 	case "dns-single":
 		if f := sendDNS(0); f != nil {
